@@ -16,7 +16,7 @@ case $cmd in
     (cd $D/repo && git init -q 2>/dev/null && git add -A >/dev/null 2>&1 && git -c user.email=x@x -c user.name=x commit -qm base >/dev/null 2>&1 || true)
     echo $D ;;
   sync)
-    rsync -rlpc --exclude target --exclude Cargo.toml /verif/harness/ $D/harness/ ;;
+    rsync -rlpc --exclude target --exclude /Cargo.toml /verif/harness/ $D/harness/ ;;
   check)
     ID=$1; TIER=${2:-quick}; shift; [ $# -gt 0 ] && shift
     case "$ID" in
